@@ -202,7 +202,8 @@ pub fn exec_decode(input: &Value) -> Value {
         Some(k) => k,
         None => return json!({"decode": {"o": "err"}, "hverify": Value::Null, "vverify": Value::Null}),
     };
-    let sd = format!("{}~", token);
+    // the SD-JWT string handed to holder and verifier: the bare token followed by '~' unless the case names another one
+    let sd = input["sd"].as_str().map(String::from).unwrap_or_else(|| format!("{}~", token));
     let with_sd = input["with_sd"].as_bool().unwrap_or(true);
     json!({
         "decode": outcome(|| sdjwt::decode(&token, &key, &policy), |(h, p)| json!([h, p])),
@@ -347,6 +348,16 @@ pub fn generate_c04(thorough: bool, seed: u64, em: &mut Emitter) {
                 c["tag"] = json!(if kind == 0 { "substitution" } else { "bitflip" });
                 em.case("decode", c);
             }
+        }
+        // (a') the SD-JWT string around the untouched JWT is not byte-exact either: white space before the header
+        // segment or after the signature segment (files, environment variables and copy/paste add it) must not be
+        // forgiven by holder or verifier
+        for (pre, post) in [(" ", "~"), ("\n", "~"), ("\t", "~"), ("\r\n", "~"), ("", " ~"), ("", "\n~"), ("", " "), ("", "\n"), ("", "\r\n"), (" ", ""), ("\u{a0}", "~"), ("", "\u{2028}~")] {
+            let sd = format!("{}{}{}", pre, token, post);
+            let mut c = decode_case(&token, &no_exp(alg), &matching_key_spec(alg), alg, true, "accept", "reject", true);
+            c["sd"] = json!(sd);
+            c["tag"] = json!("sd_string_not_byte_exact");
+            em.case("decode", c);
         }
         // (b) every key with every configured algorithm
         for kalg in keys::ALL_ALGS {
